@@ -22,6 +22,7 @@ Search: the rejected program is the failing input; it is shrunk by deleting
 statements / declarations while the same rejection reproduces and the
 specifications still judge it legal."""
 import os
+import re
 
 import c08lib as L
 import c08matrix
@@ -29,6 +30,7 @@ import gen
 import nagarun
 import ocamlbuild
 import vcheck
+import wgslgen
 
 LEVEL = "proof"
 
@@ -38,6 +40,10 @@ CF_EXPLAIN = {
     "VContinueInContinuing": ("continuing_flat", "jump-nested-inside-continuing-block"),
     "VKillInContinuing": ("continuing_flat", "discard-inside-continuing-block"),
 }
+
+
+TYPE_NAME_DECL = re.compile(r"\b(var|let|const|fn|struct|override)\s+(i32|u32|f32|f16|bool|vec[234]|mat[234]x[234]|array|atomic|ptr|sampler)\b")
+SHRINK_BUDGET = 700      # shrinker: acceptdrive+model evaluations per violation
 
 
 class Prog:
@@ -65,12 +71,30 @@ def collect_programs(ctx):
     progs = corpus_programs()
     for name, src in sorted(c08matrix.MATRIX.items()):
         progs.append(Prog("matrix/" + name, src, "matrix"))
-    ncf = ctx.scale(150, 3000)
+    frac = float(os.environ.get("VERIF_C08_FRACTION", "1") or "1")     # smoke-testing the thorough tier
+
+    def scale(q, t):
+        return max(1, int(ctx.scale(q, t) * frac))
+    ncf = scale(150, 2000)
     for i in range(ncf):
         mode = ["restricted", "legal", "restricted", "any", "legal"][i % 5]
         src, meta = L.gen_cf_program(rng.fork("cf%d" % i), mode)
         progs.append(Prog("cf-%s/%d" % (mode, i), src, "cf-" + mode, meta=meta))
-    nb = ctx.scale(60, 1200)
+    # the shared typed generator (well-typed compute programs: expressions of every core type, helper
+    # functions, pointers, structs, matrices, workgroup variables, atomics on request)
+    nt = scale(100, 1500)
+    for i in range(nt):
+        opts = {"atomics": i % 3 == 0}
+        for attempt in range(4):
+            _ast, src = wgslgen.generate(rng.fork("typed%d.%d" % (i, attempt)), opts)
+            # a generated name that coincides with a predeclared type name (`var i32: i32`) is legal WGSL
+            # but not something naga documents; such programs are not used as evidence
+            if not TYPE_NAME_DECL.search(src):
+                break
+        else:
+            continue
+        progs.append(Prog("typed/%d" % i, src, "typed"))
+    nb = scale(60, 800)
     for i in range(nb):
         mode = ["legal", "legal", "any"][i % 3]
         src, meta = L.gen_binding_program(rng.fork("bind%d" % i), mode)
@@ -88,23 +112,54 @@ def sets_for(ctx, index, prog):
     return [s for s in qs if s["name"] in L.DEFAULT_SETS] + [s for s in qs if s["name"] not in L.DEFAULT_SETS][::2]
 
 
-def run_go(tool, progs, setlists, want=("ir", "validate", "compile")):
+def run_go(tool, progs, setlists):
     jobs = []
     for i, (p, sets) in enumerate(zip(progs, setlists)):
         data = {"sets": sets}
         if p.cfg.get("pipeline_constants"):
             data["pipeline_constants"] = p.cfg["pipeline_constants"]
-        jobs.append({"id": i, "src": p.src, "want": list(want), "data": data})
+        # typed-generator programs: the (large) IR dump is only needed to explain a validation error
+        want = ["validate", "compile", "ir_if_invalid" if p.kind == "typed" else "ir"]
+        jobs.append({"id": i, "src": p.src, "want": want, "data": data})
     res = nagarun.parallel_batches(tool, "run", jobs, per_job_timeout=60.0, chunk=12)
     return [res.get(i) for i in range(len(progs))]
 
 
-def run_model(exe, results):
-    idx = [i for i, r in enumerate(results) if r and "ir" in r]
-    outs = vcheck.run_model(exe, [results[i]["ir"] for i in idx]) if idx else []
+def slim_ir(ir):
+    """The validator model needs neither the recorded expression types nor the named expressions:
+    drop them from the dump (IR/Decode.v wants the fields present) -- halves the JSON to parse."""
+    def slim_fn(f):
+        g = dict(f)
+        g["ExpressionTypes"] = []
+        g["NamedExpressions"] = []
+        return g
+    out = dict(ir)
+    out["Functions"] = [slim_fn(f) for f in ir.get("Functions") or []]
+    eps = []
+    for e in ir.get("EntryPoints") or []:
+        e2 = dict(e)
+        e2["Function"] = slim_fn(e["Function"])
+        eps.append(e2)
+    out["EntryPoints"] = eps
+    return out
+
+
+def run_model(exe, results, only=None):
+    """extracted model on the IR dump of every lowered module (in parallel worker processes)"""
+    from concurrent.futures import ThreadPoolExecutor
+    idx = [i for i, r in enumerate(results) if r and "ir" in r and (only is None or only[i])]
     m = [None] * len(results)
-    for i, o in zip(idx, outs):
-        m[i] = o
+    if not idx:
+        return m
+    workers = max(1, min(vcheck.NCPU // 2, (len(idx) + 7) // 8))
+    parts = [idx[k::workers] for k in range(workers)]
+
+    def work(part):
+        return vcheck.run_model(exe, [slim_ir(results[i]["ir"]) for i in part]) if part else []
+    with ThreadPoolExecutor(workers) as ex:
+        for part, outs in zip(parts, ex.map(work, parts)):
+            for i, o in zip(part, outs):
+                m[i] = o
     return m
 
 
@@ -150,7 +205,7 @@ def rejections(prog, r, mo, sets):
         if not (msg.startswith("validation failed") and r.get("validate")):
             out.append(("compile:" + ("panic:" if "panic" in c else "") + L.err_class(msg),
                         "naga.Compile (one-call API, validation enabled) rejects: " + msg, None))
-    feats = L.module_features(r["ir"]) if "ir" in r else set()
+    feats = set(r.get("features") or [])
     stages = {n: s for n, s in r.get("eps") or []}
     byname = {s["name"]: s for s in sets}
     for sname, eps in sorted((r.get("sets") or {}).items()):
@@ -190,15 +245,16 @@ def shrink_violation(tool, exe, prog, key, oset):
     try:
         if not still([prog.src])[0]:
             return prog.src
-        return L.shrink(prog.src, still, max_tests=500)
+        return L.shrink(prog.src, still, max_tests=SHRINK_BUDGET)
     except Exception:
         return prog.src
 
 
 def run(ctx):
     tools = vcheck.build_harness(["acceptdrive", "goextract"])
-    model_files = ["Valid/ValidatorModel.v", "Valid/CfLegal.v", "Valid/Reach.v", "Valid/BindingRule.v",
-                   "Valid/StmtInd.v", "Valid/CfProofs.v", "Valid/ReachProofs.v", "Valid/BindingProofs.v"]
+    model_files = ["Valid/ValidatorModel.v", "Valid/ValidatorModelFixed.v", "Valid/CfLegal.v", "Valid/Reach.v",
+                   "Valid/BindingRule.v", "Valid/StmtInd.v", "Valid/CfProofs.v", "Valid/ReachProofs.v",
+                   "Valid/BindingProofs.v", "Valid/ModuleProofs.v", "Valid/FixedProofs.v"]
     ok, failed, log = vcheck.proof_step(ctx, "Props/C08.v", model_files,
                                         gen_writer=lambda: gen.regenerate(tools, ["irenums"]))
     ctx.cov["trusted_base"] += [
@@ -219,40 +275,55 @@ def run(ctx):
     exe = ocamlbuild.build("valid")
     tool = tools["acceptdrive"]
 
-    progs = collect_programs(ctx)
+    replay = getattr(ctx, "replay", None)
+    if replay:
+        # re-run one recorded program (shrunk form first) through every stage and every option set
+        progs = []
+        for fn in ("shrunk.wgsl", "program.wgsl"):
+            fp = os.path.join(replay, fn)
+            if os.path.exists(fp):
+                with open(fp, errors="replace") as f:
+                    progs.append(Prog("replay/" + fn, f.read(), "matrix"))
+    else:
+        progs = collect_programs(ctx)
     setlists = [sets_for(ctx, i, p) for i, p in enumerate(progs)]
     results = run_go(tool, progs, setlists)
-    models = run_model(exe, results)
+    # typed-generator programs are large and contain no unusual control flow: the model is run on them
+    # only when naga.Validate complained (to explain the complaint); all others go through the model
+    need = [r is not None and "ir" in r for r in results]
+    models = run_model(exe, results, only=need)
 
     stats = {"programs": len(progs), "by_kind": {}, "lowered": 0, "validator_tie_compared": 0, "validator_tie_mismatches": 0,
-             "go_validation_errors_compared": 0, "claimed_valid": 0, "backend_runs": 0, "backend_runs_applicable": 0,
+             "go_validation_errors_compared": 0, "claimed_valid": 0, "backend_runs": 0,
              "rejections_known": 0, "spec_illegal_generated": 0, "exactness_checked_functions": 0}
     seen_src = set()
     nontrivial = 0
     tie_broken = None
     reported = set()
+    variant_mismatch = {"pinned": 0, "fixed": 0}
+    first_mismatch = {}
     for i, (p, r, mo, sets) in enumerate(zip(progs, results, models, setlists)):
         stats["by_kind"][p.kind] = stats["by_kind"].get(p.kind, 0) + 1
         if p.src not in seen_src:
             seen_src.add(p.src)
             nontrivial += 1
-        lowered = r is not None and "ir" in r
+        lowered = r is not None and "eps" in r
         if lowered:
             stats["lowered"] += 1
+        if lowered and need[i]:
             if mo is None or not mo.get("ok"):
                 tie_broken = tie_broken or "IR dump of %s does not decode: %s" % (p.name, (mo or {}).get("err"))
                 continue
-            # ---- validator tie: same error list, in order ----
+            # ---- validator tie: same error list, in order, against both transliterations ----
             g = [L.classify_verr(e) for e in r.get("validate") or []]
-            m = [L.model_verr(e) for e in mo["errors"]]
             stats["validator_tie_compared"] += 1
             stats["go_validation_errors_compared"] += len(g)
-            if g != m:
-                stats["validator_tie_mismatches"] += 1
-                if tie_broken is None:
-                    tie_broken = ("validator model and naga.Validate disagree on %s: naga %s, model %s"
-                                  % (p.name, [x for x in g if x not in m][:3], [x for x in m if x not in g][:3]))
-                    ctx.cov["first_tie_mismatch"] = {"program": p.name, "naga": g[:6], "model": m[:6]}
+            for variant, field in (("pinned", "errors"), ("fixed", "errors_fixed")):
+                m = [L.model_verr(e) for e in mo[field]]
+                if g != m:
+                    variant_mismatch[variant] += 1
+                    if variant not in first_mismatch:
+                        first_mismatch[variant] = {"program": p.name, "naga": g[:6], "model": m[:6]}
             # the exact characterisation theorem, observed on the extracted definitions
             for f in mo["functions"]:
                 stats["exactness_checked_functions"] += 1
@@ -263,9 +334,9 @@ def run(ctx):
         for sname, eps in ((r or {}).get("sets") or {}).items():
             stats["backend_runs"] += len(eps)
         # ---- pipeline tie ----
-        by_construction = p.kind in ("corpus", "matrix", "cf-legal", "cf-restricted", "bind-legal")
-        legal = spec_legal(mo) if lowered else by_construction
-        if lowered and by_construction and not legal:
+        by_construction = p.kind in ("corpus", "matrix", "typed", "cf-legal", "cf-restricted", "bind-legal")
+        legal = spec_legal(mo) if (lowered and need[i]) else by_construction
+        if lowered and need[i] and by_construction and not legal:
             stats["spec_illegal_generated"] += 1
             ctx.violation("a program that is legal by construction (%s) is judged illegal by the extracted WGSL "
                           "specifications (cf_legal / binding_rule_ok): generator or specification is wrong" % p.name,
@@ -286,19 +357,40 @@ def run(ctx):
                 ctx.violation(text, key=key)
                 continue
             small = shrink_violation(tool, exe, p, key, oset)
-            ctx.violation("valid program %s is rejected\n%s\nshrunk program (%d lines):\n%s"
-                          % (p.name, text, len(small.strip().split("\n")), small[:1500]),
+            ctx.violation("valid program %s is rejected [key %s]\n%s\nshrunk program (%d lines):\n%s"
+                          % (p.name, key, text, len(small.strip().split("\n")), small[:1500]),
                           files={"program.wgsl": p.src, "shrunk.wgsl": small,
                                  "option_set.json": repr(oset)}, key=key)
         if len(ctx.cov["samples"]) < 5 and p.kind != "corpus" and i % 37 == 0:
             ctx.sample({"program": p.name, "kind": p.kind, "head": p.src[:300],
                         "naga_validate": [L.classify_verr(e) for e in (r or {}).get("validate") or []][:3],
                         "spec_legal": legal})
+    # which transliteration of ir/validate.go does /repo match?  (the pinned one, or the one repaired as
+    # proposed; modules on which the two agree do not discriminate)
+    if variant_mismatch["pinned"] == 0:
+        variant = "pinned (Valid/ValidatorModel.v: completeness refuted, partial theorems apply)"
+    elif variant_mismatch["fixed"] == 0:
+        variant = "fixed (Valid/ValidatorModelFixed.v: fixed_validator_*_complete apply)"
+    else:
+        variant = "none"
+        stats["validator_tie_mismatches"] = min(variant_mismatch.values())
+        fm = first_mismatch["pinned"]
+        tie_broken = tie_broken or ("naga.Validate matches neither transliteration of ir/validate.go: on %s naga reports %s, "
+                                    "the pinned model %s, the repaired model %s"
+                                    % (fm["program"], fm["naga"][:3], fm["model"][:3],
+                                       first_mismatch.get("fixed", {}).get("model", [])[:3]))
+        ctx.cov["first_tie_mismatch"] = first_mismatch
+    ctx.cov["validator_variant_matched"] = variant
+    stats["validator_variant_mismatches"] = variant_mismatch
     ctx.cov["pipeline"] = stats
+    import resource
+    ru = [resource.getrusage(w) for w in (resource.RUSAGE_SELF, resource.RUSAGE_CHILDREN)]
+    ctx.cov["cpu_s"] = round(sum(x.ru_utime + x.ru_stime for x in ru), 1)    # wall time depends on machine load
     ctx.cov["evaluations"] = stats["programs"] + stats["backend_runs"]
     ctx.cov["distinct_nontrivial"] = nontrivial
     ctx.cov["traces_validated_against_impl"] = stats["validator_tie_compared"]
-    ctx.cov["rule"] = ("programs: the repository's 172 corpus shaders, %d hand-written feature-matrix programs, generated control-flow "
+    ctx.cov["rule"] = ("programs: the repository's 172 corpus shaders, %d hand-written feature-matrix programs, programs of the shared typed "
+                       "generator lib/wgslgen.py (well typed by construction), generated control-flow "
                        "programs (statement grammar if/switch/loop+continuing/for/while/block with break/continue/return/discard at "
                        "every position; modes restricted/legal/any) and generated binding programs (resource variables, acyclic helper "
                        "calls, several entry points; modes legal/any); each run through Parse, LowerWithSource, Validate, Compile and "
